@@ -31,18 +31,29 @@ MANIFEST = {
             "defaults and the list of classes overriding __init__ "
             "regenerated from the live classes each run. Theorems for ALL heaps/arguments/class tables: no pre-existing "
             "heap node is written (frame) by any modelled operation (store: only its own table), hence all deep values "
-            "are kept; deepcopy yields an equal value in all-new containers; setattr on any property name is refused, "
-            "no property name of the repository is private, and -- by an invariant kept by every operation (every instance "
-            "attribute of every library object is private) -- delattr of any public name is refused; the frame theorem is "
+            "are kept; deepcopy yields an equal value in all-new containers; for the guards the proved content is that no "
+            "property name in the regenerated class tables is private (property_names_refused) and that every operation "
+            "keeps the invariant 'every instance attribute of every library object is private' (private_attrs_kept) -- "
+            "setattr_refused and delattr_public_refused then follow by unfolding the model's one-line guards and are not "
+            "independent evidence; the frame theorem is "
             "refuted for the variants without the defensive copies; the frame holds for every operation of the case "
             "language and for every finite HISTORY of operations from any starting heap (values defined at any "
-            "step are kept at every later step). Model tied to the code by an aliasing "
+            "step are kept at every later step). The frame theorems are SAFETY statements: they hold equally when an "
+            "operation returns an exception or runs out of fuel (FUEL = 40) and for env indices that do not exist; "
+            "that the operations succeed is shown by 9 Examples (deepcopy, extensions clean, new_version, "
+            "parse_observable, factory create, store add, granular add_markings, custom-type constructor, a 5-step "
+            "history) and measured by the correspondence (the library's and the model's status are compared per call). "
+            "Model tied to the code by an aliasing "
             "correspondence (same operation sequences on model and library: mutation set and argument/result "
             "sharing compared per operation). All other public operations x argument shapes are covered only by the "
             "before/after snapshot oracle (testing, labelled as such in the evidence).",
     "design_ref": "DESIGN.md 6/C13",
     "note": "Modelled and proved: the skeletons listed in text (allocation/copy/sharing/write structure only; validation "
-            "is not modelled, so the model predicts success where the library may reject; which ids get_markings returns and "
+            "is not modelled, so the model predicts success where the library may reject; in particular "
+            "_STIXBase.__deepcopy__ re-runs the constructor on the copied mapping and the model does not re-validate: "
+            "'a deep copy of a library object is equal' therefore relies on cleaned values being fixed points of clean "
+            "(property C01) -- for plain dicts/lists it is unconditional, and on the real library copy == original is "
+            "checked by the oracle on every deepcopy call; which ids get_markings returns and "
             "what is_marked answers is not modelled either, only their heap effect). Only snapshot-tested: validate/iterpath, "
             "serialization, equality, parse of text, filesystem store, Environment, queries, "
             "save/load, object similarity (harness/impl/snapshot.py offers the same oracle to other workers). Trusted: Coq kernel + "
